@@ -175,6 +175,11 @@ func (reorg *Reorg) Read(buf *bytes.Buffer) error {
 		return err
 	}
 
+	// Each block is at least a header and a tx count.
+	if uint64(count)*(wire.MaxBlockHeaderPayload+4) > uint64(buf.Len()) {
+		return errors.New("Invalid reorg block count")
+	}
+
 	reorg.Blocks = make([]ReorgBlock, count)
 	for i, _ := range reorg.Blocks {
 		if err := reorg.Blocks[i].Read(buf); err != nil {
@@ -213,6 +218,10 @@ func (block *ReorgBlock) Read(buf *bytes.Buffer) error {
 	var count uint32
 	if err := binary.Read(buf, binary.LittleEndian, &count); err != nil {
 		return err
+	}
+
+	if uint64(count)*bitcoin.Hash32Size > uint64(buf.Len()) {
+		return errors.New("Invalid reorg block tx count")
 	}
 
 	block.TxIds = make([]bitcoin.Hash32, count)
